@@ -69,8 +69,22 @@ def hostile_pe(rng, kind):
     elif kind == "uinfo-missing":
         uinfos[rng.choice(list(uinfos))]["_missing"] = True
     elif kind == "chain-cycle":
-        i = rng.choice(list(uinfos)); j = rng.choice(list(uinfos))
-        uinfos[i]["chain"] = j; uinfos[j]["chain"] = i
+        # cycles through the function's own info (a->a, a->b->a) and cycles entered from outside (a->b->b, a->b->c->b)
+        ids = list(uinfos)
+        rng.shuffle(ids)
+        a, b = ids[0], ids[1]
+        n0 = len(uinfos)
+        uinfos[n0] = dict(fpreg=None, fpoff=0, ops=[], chain=None, prolog=0)
+        c = n0
+        shape = rng.below(4)
+        if shape == 0:
+            uinfos[a]["chain"] = a
+        elif shape == 1:
+            uinfos[a]["chain"] = b; uinfos[b]["chain"] = a
+        elif shape == 2:
+            uinfos[a]["chain"] = b; uinfos[b]["chain"] = b
+        else:
+            uinfos[a]["chain"] = b; uinfos[b]["chain"] = c; uinfos[c]["chain"] = b
     elif kind == "chain-long":
         n0 = len(uinfos)
         m = rng.choice([31, 32, 33, 40])
@@ -236,7 +250,7 @@ def damage_line(rng, line, base_svma):
                 lo2, hi2 = int(secs[o][2], 16), int(secs[o][3], 16)
             else:
                 lo2, hi2 = rng.choice([0, lo]), rng.choice([M64, 1 << 63, (1 << 32) + lo])
-            secs[k][2], secs[k][3] = hx(lo2), hx(hi2)
+            secs[k][2], secs[k][3] = hx(lo2 & M64), hx(hi2 & M64)
         tag = "range:" + kind
     flat = [str(n)] + [x for sct in secs for x in sct]
     return head + " A none B " + " ".join(flat), tag
@@ -326,8 +340,63 @@ def macho_ranges(rng, tier):
         out.append(("macho-ranges-%d" % rep, s))
     return out
 
+def analysis_stream(rng, tier):
+    """the instruction analysers (entered from Mach-O unwinding for first frames) on hostile text bytes: random
+    bytes, shuffled and truncated prologue/epilogue instructions, lone prefixes at the end of the function, long
+    runs of stack-pointer adjustments; pc anywhere inside the function bytes (the precondition macho.rs establishes)"""
+    out = []
+    X86 = [bytes([0x55]), bytes([0x48, 0x89, 0xE5]), bytes([0x41, 0x57]), bytes([0x41, 0x56]), bytes([0x53]), bytes([0x50]),
+           bytes([0x48, 0x83, 0xEC, 0x28]), bytes([0x48, 0x81, 0xEC, 0x00, 0x10, 0x00, 0x00]), bytes([0x48, 0x83, 0xC4, 0x28]),
+           bytes([0x5B]), bytes([0x41, 0x5E]), bytes([0x41, 0x5F]), bytes([0x5D]), bytes([0xC3]), bytes([0xE9, 0, 0, 0, 0]),
+           bytes([0xFF, 0x25, 0, 0, 0, 0]), bytes([0x41]), bytes([0x40]), bytes([0x48]), bytes([0x4C]), bytes([0xFF]), bytes([0x0F, 0x1F])]
+    A64 = [bytes.fromhex(h) for h in ["fd7bbfa9", "fd030091", "ff4300d1", "ff430091", "fd7bc1a8", "c0035fd6", "ff0f5fd6", "7f2303d5",
+                                      "ff2303d5", "ffff7f91", "ffff7fd1", "f44fbea9", "f44fc2a8", "00000014", "e00f1ff8", "fd7b01a9", "1f2003d5"]]
+    for arch, pool, gran in (("x86", X86, 1), ("a64", A64, 4)):
+        for rep in range(2 if tier == "quick" else 30):
+            s = Script(arch, "may")
+            for k in range(150 if tier == "quick" else 400):
+                c = rng.below(6)
+                if c == 0:
+                    b = bytes(rng.below(256) for _ in range(rng.range(0, 40)))
+                elif c == 1:
+                    b = b"".join(rng.choice(pool) for _ in range(rng.range(0, 14)))
+                elif c == 2:
+                    b = b"".join(rng.choice(pool) for _ in range(rng.range(1, 10)))
+                    b = b[: rng.range(0, len(b))]                                  # cut inside an instruction
+                elif c == 3:
+                    b = rng.choice(pool) * rng.choice([100, 129, 200, 300, 70000 // max(1, len(pool[0]))][:4])
+                elif c == 4:
+                    b = b"".join(rng.choice(pool) for _ in range(rng.range(1, 8))) + rng.choice(pool)[:1]
+                else:
+                    b = bytes([rng.choice([0x40, 0x41, 0x48, 0x4c, 0xff, 0x0f, 0xe9, 0xeb])]) * rng.range(1, 6)
+                for off in {0, len(b), (len(b) // gran // 2) * gran, rng.below(len(b) + 1)}:
+                    for kind in ("pro", "epi", "both"):
+                        s.add("analyze %s %s %d" % (kind, hexs(b), off), tag="analysis:%s:%s:%d" % (arch, kind, c))
+            if rep == 0:
+                # counters: more pushes / pops / stack adjustments than the accumulators can hold
+                if arch == "x86":
+                    longs = [(bytes([0x5B]) * 65536 + bytes([0xC3]), 0), (bytes([0x41, 0x5C]) * 65536 + bytes([0xC3]), 0),
+                             (bytes([0x53]) * 65536 + bytes([0x48, 0x83, 0xEC, 0x28]), 65536),
+                             (bytes([0x41, 0x54]) * 65536 + bytes([0x48, 0x83, 0xEC, 0x28]), 131072)]
+                else:
+                    longs = [(bytes.fromhex("ffff7f91") * 200 + bytes.fromhex("c0035fd6"), 0),
+                             (bytes.fromhex("ffff7fd1") * 200 + bytes.fromhex("fd7bbfa9"), 800),
+                             (bytes.fromhex("ff0340d1") * 3 + bytes.fromhex("ffff7fd1") * 200, 812)]
+                for b, off in longs:
+                    for kind in ("pro", "epi", "both"):
+                        s.add("analyze %s %s %d" % (kind, hexs(b), off), tag="analysis:%s:%s:counter" % (arch, kind))
+            s.nomodel = True
+            out.append(("analysis-%s-%d" % (arch, rep), s))
+    return out
+
 def generate(rng, tier):
-    return structural(rng, tier) + dwarf_base(rng, tier) + bytes_stream(rng, tier) + macho_ranges(rng, tier)
+    import suites
+    out = structural(rng, tier) + dwarf_base(rng, tier)
+    # valid DWARF worlds including modules without any FDE (model-compared)
+    for w in range(4 if tier == "quick" else 40):
+        nm, s = suites.dwarf_world(rng, "x86" if w % 2 == 0 else "a64", nmods=3, nf=3, nprobes=30, policy="may" if w % 4 < 2 else "must")
+        out.append(("world-%s-%d" % (nm, w), s))
+    return out + bytes_stream(rng, tier) + macho_ranges(rng, tier) + analysis_stream(rng, tier)
 
 OWN = re.compile(r"panic own\b")
 def judge(script, impl):
